@@ -102,6 +102,18 @@ def to_ds(d):
     return ds
 
 
+def wire_ds(d):
+    """The identifier as the qrscp handlers see it: encoded by the requestor,
+    decoded by the SCP under the pydicom configuration the qrscp application
+    module itself installs when imported (empty text values decode to None)."""
+    from io import BytesIO
+
+    import pynetdicom.apps.qrscp.qrscp  # noqa: F401  (sets pydicom.config as the running application does)
+    from pynetdicom.dsutils import decode, encode
+
+    return decode(BytesIO(encode(to_ds(d), True, True)), True, True)
+
+
 def inst_ds(inst):
     ds = to_ds(inst)
     ds.SOPClassUID = "1.2.840.10008.5.1.4.1.1.2"
@@ -178,7 +190,7 @@ def eval_db(db_idx, db, idents, tmpdir):
         level = d.get("QueryRetrieveLevel")
         kind = f"{'find' if model in (PR_FIND, SR_FIND) else 'retrieve'}:{classify(d)}"
         try:
-            res = qdb.search(UID(model), to_ds(d), session)
+            res = qdb.search(UID(model), wire_ds(d), session)
             rejected = False
         except qdb.InvalidIdentifier:
             rejected = True
@@ -206,7 +218,7 @@ def eval_db(db_idx, db, idents, tmpdir):
             continue
         if model in (PR_FIND, SR_FIND):
             # one C-FIND response per matching entity
-            event = types.SimpleNamespace(assoc=types.SimpleNamespace(requestor=types.SimpleNamespace(address="127.0.0.1", port=1), ae=types.SimpleNamespace(ae_title="QRSCP")), timestamp=__import__("datetime").datetime(2020, 1, 1), request=types.SimpleNamespace(AffectedSOPClassUID=UID(model)), identifier=to_ds(d), is_cancelled=False)
+            event = types.SimpleNamespace(assoc=types.SimpleNamespace(requestor=types.SimpleNamespace(address="127.0.0.1", port=1), ae=types.SimpleNamespace(ae_title="QRSCP")), timestamp=__import__("datetime").datetime(2020, 1, 1), request=types.SimpleNamespace(AffectedSOPClassUID=UID(model)), identifier=wire_ds(d), is_cancelled=False)
             try:
                 rsp = [(st, ds) for st, ds in qh.handle_find(event, url, types.SimpleNamespace(), logger)]
             except Exception as exc:
